@@ -99,6 +99,22 @@ def machine_spec(draw, profile="general", tier="quick"):
             pipes[k]["group"] = 0
     nsteps = draw(st.integers(3, 25 if tier == "quick" else 60))
     steps = []
+    if profile == "edge":
+        # fixed-memory containers whose usage adds up to the capacity plus a small, non-rounding excess (or minus it):
+        # a kill is needed for +eps, none for -eps
+        pools, multi, over = 1, True, True
+        ram = draw(st.sampled_from([100, 64, 30, 256]))
+        parts = list(draw(st.sampled_from([(0.6, 0.4), (0.5, 0.3, 0.2), (0.7, 0.2, 0.1), (0.4, 0.35, 0.25), (0.5, 0.5)])))
+        eps = draw(st.sampled_from([5e-4, 2e-5, 1e-3, -5e-4, 4e-4, 0.01]))
+        ticks = draw(st.integers(2, 6))
+        pipes = []
+        for i, f in enumerate(parts):
+            memv = round(f * ram, 6) + (eps if i == len(parts) - 1 else 0.0)
+            pipes.append({"ops": [[{"io": 0, "cp": ticks + i, "law": "const", "mem": ["abs", memv]}]]})
+        pipes.append(draw(pipe_spec("oom")))
+        npipes = len(pipes)
+        cpus = max(cpus, len(parts) + 1)
+        steps.append({"sus": [], "asg": [[0, i, 0, ["abs", 1], ["cap", 1.0], None] for i in range(len(parts))], "idle": draw(st.integers(1, 4))})
     if profile == "branches":
         # several containers of ONE pipeline (independent branches) suspended at overlapping times with different write-out lengths
         pools, multi = 1, True
@@ -146,7 +162,7 @@ def machine_spec(draw, profile="general", tier="quick"):
                         list(draw(cpu_spec if profile != "oom" else st.tuples(st.just("abs"), st.integers(1, 2)))),
                         list(draw(ram_spec(profile))), bad])
         # a deliberate inadmissible command in about one step of 12 (an episode ends at its first rejection)
-        if draw(st.integers(0, 11 if profile != "huge" else 4)) == 0:
+        if draw(st.integers(0, (11 if not (sus and asg) else 5) if profile != "huge" else 4)) == 0:
             if asg and (profile == "huge" or draw(st.booleans())):
                 k = draw(st.integers(0, len(asg) - 1))
                 f = draw(st.sampled_from(ASG_FAULTS if profile != "huge" else ["ram_over", "ram_over", "cpu_over"]))
